@@ -4,7 +4,7 @@
  *   <fn>_b  kind=B  bounded stand-in (len <= 4, all element values symbolic): the full postcondition against a plain
  *                   reference loop; replayable natively, guards against a wrong contract.                                   */
 void _ZN3etl14assert_handlerINS_10assert_msgEEEvRKT_(struct etl_assert_msg *m) { __CPROVER_assert(0, "C05: assert_handler fired on valid input"); __CPROVER_assume(0); }
-#define GH() do { vf_n = nondet_ulong(); vf_m = nondet_ulong(); vf_k = nondet_ulong(); vf_j = nondet_ulong(); vf_p = nondet_ulong(); vf_q = nondet_ulong(); } while (0)
+#define GH() do { vf_n = nondet_ulong(); vf_m = nondet_ulong(); vf_k = nondet_ulong(); vf_j = nondet_ulong(); vf_p = nondet_ulong(); vf_q = nondet_ulong(); vf_ov = nondet_ulong(); } while (0)
 #define P3(x) ((x) % 3 == 0)
 #define OP1(x) ((int)((unsigned)(x) * 2u + 1u))
 #define OP2(x, y) ((int)((unsigned)(x) * 3u + (unsigned)(y)))
@@ -70,8 +70,16 @@ void h_count_if_b(void) { IN1(a, n); long r = count_if_p3(a, a + n);
   VF_ASSERT(r == e, "C06: count_if returns the number of elements satisfying the predicate"); UNCHANGED(a, n); VF_REACH(); }
 
 /*@GROUP name=for_each props=C06,C02 kind=U mode=contract enforce=etl_for_each loops=1 standin=for_each_b@*/
-void h_for_each(void) { int *f, *l; struct vf_mut1 m; GH(); etl_for_each(f, l, m); VF_REACH(); }
+void h_for_each(void) { struct vf_idx_int f, l; struct vf_mut1 m; GH(); etl_for_each(f, l, m); VF_REACH(); }
 /*@GROUP name=for_each_b props=C06,C02 kind=B bound=len<=4 unwind=6@*/
 void h_for_each_b(void) { IN1(a, n); for_each_mut(a, a + n);
   for (unsigned long i = 0; i < n; ++i) VF_ASSERT(a[i] == OP1(a_in[i]), "C06: for_each applies f to every element exactly once");
   VF_REACH(); }
+
+/*@GROUP name=copy props=C06,C02 kind=U mode=contract enforce=etl_copy loops=1 standin=copy_b@*/
+void h_copy(void) { struct vf_idx_int f, l, d; GH(); etl_copy(f, l, d); VF_REACH(); }
+/*@GROUP name=copy_b props=C06,C02 kind=B bound=len<=4 unwind=6@*/
+void h_copy_b(void) { IN1(a, n); VF_BUF(int, d, n, MAXB); int *r = copy_int(a, a + n, d);
+  VF_ASSERT(r == d + n, "C06: copy returns d_first + (last - first)");
+  for (unsigned long i = 0; i < n; ++i) VF_ASSERT(d[i] == a_in[i], "C06: copy: d[i] == a[i]");
+  UNCHANGED(a, n); VF_REACH(); }
